@@ -97,6 +97,11 @@ func hC19Decode() {
 	payload := encodeMsg(cfg.clientCodec, wireMsg{abstract: abstract, compressed: cfg.clientComp})
 	req := buildClientRequest(cfg, nil, p.body)
 	q := "connect=v1&encoding=" + cfg.clientCodec
+	if verifChoose("signalledByHeader", 2) == 1 {
+		// the other way to mark a Connect GET: the Connect-Protocol-Version header instead of connect=v1
+		q = "encoding=" + cfg.clientCodec
+		req.Header.Set("Connect-Protocol-Version", "1")
+	}
 	if cfg.clientComp {
 		q += "&compression=gzip"
 	}
